@@ -1,4 +1,23 @@
 package main
 
+import "golang.org/x/tools/go/ssa"
+
 func SLt(a, b *Term) *Term { return Cmp(OSLt, a, b) }
 func SLe(a, b *Term) *Term { return Cmp(OSLe, a, b) }
+
+// isNilFunc reports whether a func-typed value is nil.
+func isNilFunc(v value) bool {
+	switch f := v.(type) {
+	case nil:
+		return true
+	case *ssa.Function:
+		return f == nil
+	case *closure:
+		return f == nil
+	case *nativeFunc:
+		return f == nil
+	case *boundFn:
+		return f == nil
+	}
+	return false
+}
